@@ -1,8 +1,23 @@
 (* Props/C05.v -- property C05: a downlink is accepted iff it is authentic and fresh. *)
 From Coq Require Import NArith ZArith List Bool Lia.
-From LoraV Require Import Base.Bytes Model.Frame Spec.L2Frame Model.Region Model.Mac Proofs.FcntProofs Proofs.SessionProofs Model.NbDev Model.AsyncDev Proofs.AsyncProofs Proofs.DownHistory Proofs.AsyncDownHistory.
+From LoraV Require Import Spec.RP002 Gen.RegionTables Base.Bytes Model.Frame Spec.L2Frame Model.Region Model.Mac Proofs.FcntProofs Proofs.SessionProofs Model.NbDev Model.AsyncDev Proofs.AsyncProofs Proofs.DownHistory Proofs.AsyncDownHistory.
 Import ListNotations.
 Local Open Scope N_scope.
+
+(* "the maximum size of the data rate": every data rate the regenerated regional tables define is the RP002 one -- spreading factor,
+   bandwidth and maximum MACPayload size (written independently in Spec/RP002.v; the stack may leave optional rates undefined) *)
+Theorem C05_max_payload_tables_match_rp002 : forall r dr d, r < 9 -> dr < 15 -> get_datarate r dr = Some d -> rp_datarate r dr = Some d.
+Proof.
+  intros r dr d Hr Hd H.
+  assert (E : forallb (fun r => forallb (fun dr => match get_datarate r dr with
+                                                   | Some (a, b, c) => match rp_datarate r dr with Some (a', b', c') => (a =? a') && (b =? b') && (c =? c') | None => false end
+                                                   | None => true end) (map N.of_nat (seq 0 15))) (map N.of_nat (seq 0 9)) = true) by (vm_compute; reflexivity).
+  rewrite forallb_forall in E. assert (Hin : In r (map N.of_nat (seq 0 9))) by (apply in_map_iff; exists (N.to_nat r); split; [apply N2Nat.id|apply in_seq; lia]).
+  specialize (E r Hin). rewrite forallb_forall in E. assert (Hin2 : In dr (map N.of_nat (seq 0 15))) by (apply in_map_iff; exists (N.to_nat dr); split; [apply N2Nat.id|apply in_seq; lia]).
+  specialize (E dr Hin2). rewrite H in E. destruct d as [[a b] c]. destruct (rp_datarate r dr) as [[[a' b'] c']|]; [|discriminate].
+  apply andb_true_iff in E. destruct E as [E E3]. apply andb_true_iff in E. destruct E as [E1 E2].
+  apply N.eqb_eq in E1, E2, E3. subst. reflexivity.
+Qed.
 
 Theorem C05_first_downlink : forall w, next_fcnt_down None w = Some w.
 Proof. exact nfd_first. Qed.
